@@ -239,7 +239,7 @@ FormFullA(int n, int_t *nonz, doublecomplex **nzval, int_t **rowind, int_t **col
 	    ++marker[col];
 	}
 
-    new_nnz = *nonz * 2 - n;
+    new_nnz = *nonz * 2; /* upper bound: diagonal entries, where stored, are not mirrored */
     if ( !(a_colptr = intMalloc(n+1) ) )
 	ABORT("SUPERLU_MALLOC a_colptr[]");
     if ( !(a_rowind = intMalloc( new_nnz ) ) )
@@ -273,6 +273,7 @@ FormFullA(int n, int_t *nonz, doublecomplex **nzval, int_t **rowind, int_t **col
       a_colptr[j+1] = k;
     }
 
+    new_nnz = k; /* exact count, also when some diagonal entries are not stored */
     printf("FormFullA: new_nnz = %lld\n", (long long) new_nnz);
 
     SUPERLU_FREE(al_val);
